@@ -116,6 +116,26 @@ int main(int argc, char** argv) {
         int bad = cmp("kick", b->getData(), exp, N, nb, 2e-5);
         return bad ? 1 : 0;
     }
+    if (mode == "conserve" && argc == 8) {
+        // total charge of an interior blob under a uniform whole-cell kick of `m` cells (C01)
+        int N = atoi(argv[2]), nb = atoi(argv[3]), it = atoi(argv[4]), axis = atoi(argv[5]), m = atoi(argv[6]);
+        int s0 = atoi(argv[7]);
+        PhaseSpace::resetSize(N, nb);
+        auto a = mkps(N, nb), b = mkps(N, nb);
+        meshdata_t* d = a->getData();
+        for (size_t i = 0; i < size_t(nb) * N * N; i++) d[i] = 0;
+        int c = N / 2;
+        for (int n = 0; n < nb; n++) { if (axis == 0) d[(size_t(n) * N + s0) * N + c] = 1.0f; else d[(size_t(n) * N + c) * N + s0] = 1.0f; }
+        TestKick km(a, b, static_cast<SourceMap::InterpolationType>(it), axis == 0 ? KickMap::Axis::x : KickMap::Axis::y);
+        std::vector<meshaxis_t> off(size_t(N) * nb, float(m));
+        km.set(off);
+        km.apply();
+        double s1 = 0;
+        for (size_t i = 0; i < size_t(nb) * N * N; i++) s1 += b->getData()[i];
+        printf("conserve: source line %d, destination line %d (both inside 0..%d), charge before=%d after=%.9g\n", s0, s0 - m, N - 1, nb, s1);
+        if (std::fabs(s1 - nb) > 1e-4) { printf("MISMATCH total charge not conserved\n"); return 1; }
+        return 0;
+    }
     if (mode == "rf" && argc == 7) {
         // every bunch must receive the single-bunch RF kick (C08)
         int N = atoi(argv[2]), nb = atoi(argv[3]), it = atoi(argv[4]), lin = atoi(argv[5]);
